@@ -50,6 +50,7 @@ COST.update({K + "WebSocket.close": 100, K + "WebSocket.recv_data_frame": 100, K
 
 T_TRANSPORT = "assumed contract of the transport (socket.recv / socket.send): which prefix is delivered/accepted and which error is raised are unconstrained (DESIGN.md section 3)"
 T_KEYSRC = "assumed contract of the key source (os.urandom / user callable): returns 4 bytes or a 4-character ASCII str; randomness quality is not a contract"
+T_REL = "assumed contract of an external (rel-like) dispatcher: buffwrite(sock, data, send, on_error) transmits all of data in order; read / timeout / signal register callbacks"
 T_LOG = "logging calls are effect-free; isEnabledForTrace() is an unconstrained boolean (both values verified)"
 
 SEND_FUNCS = [A + "_mask", A + "ABNF.mask", A + "ABNF._get_masked", A + "ABNF.format", A + "ABNF.create_frame",
@@ -109,7 +110,7 @@ PROPS = {
                    K + "WebSocket.recv_data_frame", K + "WebSocket.recv", D_ + "DispatcherBase.send", D_ + "WrappedDispatcher.send",
                    A + "frame_buffer.recv_strict", K + "WebSocket.settimeout"],
         lemmas=[],
-        trusted_base=[T_TRANSPORT, "assumed contracts of sock.close()/shutdown()/settimeout()/gettimeout() and time.time() (non-decreasing clock)"],
+        trusted_base=[T_TRANSPORT, T_REL, "assumed contracts of sock.close()/shutdown()/settimeout()/gettimeout() and time.time() (non-decreasing clock)"],
         assumptions=["object invariant WSI (no transport => unconnected; auto_close_frames <= 1; auto_close_frames = 1 => unconnected) is "
                      "established by __init__ and preserved by every public method under contract, hence over all call/event histories",
                      "explicit user calls of send_close() are not counted as 'own initiative' (the statement's parenthesis names close() and the reply)"],
@@ -192,8 +193,8 @@ PROPS = {
                      "termination of recv_data_frame / close()'s wait loop against an endless stream of control frames"]),
     "C18": dict(
         functions=[U_ + "parse_url", HK + "_open_socket", HK + "_get_addrinfo_list", HK + "connect"], lemmas=[], bounded=[native_c18.bounded],
-        trusted_base=["assumed contract of urllib.parse.urlparse (hostname / port / path / query per RFC 3986) - the grammar itself is only covered by the "
-                      "bounded URL grid", "assumed contracts of socket.socket / connect / setsockopt / settimeout / getaddrinfo"],
+        trusted_base=["assumed contract of urllib.parse.urlsplit / urlparse (hostname / port / path / query per RFC 3986; urlparse's .path lacks the ';parameters' "
+                      "of the last segment, urlsplit's has them) - the grammar itself is only covered by the bounded URL grid", "assumed contracts of socket.socket / connect / setsockopt / settimeout / getaddrinfo"],
         assumptions=["'unreachable' is read as ENETUNREACH (the errno the mechanism names); EHOSTUNREACH counts as 'other error'"],
         not_decided=["behaviour of urlparse on the full URL grammar (bounded differential only)"]),
     "C19": dict(
@@ -226,7 +227,7 @@ PROPS = {
         functions=[K + "WebSocket.send_frame", K + "WebSocket._send", SK + "send", K + "WebSocket.recv", A + "frame_buffer.recv_frame",
                    K + "WebSocket.recv_data_frame", K + "WebSocket.__init__", D_ + "DispatcherBase.send", D_ + "WrappedDispatcher.send"],
         lemmas=[],
-        trusted_base=[T_TRANSPORT, "threading.Lock is a mutex with release/acquire ordering (assumed contract); all writers go through "
+        trusted_base=[T_TRANSPORT, T_REL, "threading.Lock is a mutex with release/acquire ordering (assumed contract); all writers go through "
                                    "WebSocket._send, whose contract requires the send lock"],
         assumptions=["lock-invariant obligations instead of schedule exploration: on release of the send lock no partial frame is on the wire; "
                      "recv() calls the message-level read only under the read lock; recv_frame holds the frame lock for the whole frame"],
